@@ -461,20 +461,27 @@ def main(argv=None):
         first_bad.sort(key=lambda t: t[0])
         # report each distinct sig once; minimise the first
         seen = set()
+        tries = {}
+        unconfirmed = []
         for idx, v, run in first_bad:
             if v.get('sig') in seen:
                 continue
-            seen.add(v.get('sig'))
             if run is None:
                 run = make_run(prop, args.seed, idx, tier)
-            # (1) confirm in a fresh process
+            # (1) confirm in a fresh process.  A violation that does not
+            # reproduce there is not reported (its cause is not a function of
+            # the seed: e.g. behaviour keyed on object addresses); other runs
+            # with the same signature are tried before giving up on it.
             res = run_isolated(prop, run)
             conf = [x for x in res.get('violations', [])
                     if x['oracle'] == v['oracle']]
             if not conf:
-                print('HARNESS-ERROR violation %s of run %d not confirmed on '
-                      're-execution: %s' % (v['oracle'], idx, v['msg']))
-                return 2
+                tries[v.get('sig')] = tries.get(v.get('sig'), 0) + 1
+                unconfirmed.append((v['oracle'], idx, v['msg']))
+                if tries[v.get('sig')] >= 4:
+                    seen.add(v.get('sig'))
+                continue
+            seen.add(v.get('sig'))
             small, v2 = (run, conf[0])
             if len(seen) <= 2:
                 small, v2 = minimise(prop, run, conf[0])
@@ -486,8 +493,15 @@ def main(argv=None):
             print('VIOLATION property=%s replay=%s' % (pid, path))
             violations_out.append(v2)
             exit_code = 1
-            if len(seen) >= 5:
+            if len(violations_out) >= 5:
                 break
+        for o_, i_, m_ in unconfirmed[:5]:
+            print('unconfirmed: %s of run %d did not reproduce in a fresh '
+                  'process: %s' % (o_, i_, m_[:160]))
+        if unconfirmed and not violations_out:
+            print('HARNESS-ERROR %d violation(s) seen, none reproduced on '
+                  're-execution' % len(unconfirmed))
+            return 2
 
     for line in known_lines:
         print(line)
